@@ -4,6 +4,19 @@ claimed / not_applicable partition is always consistent)."""
 import json
 
 CLAIMS = {
+ 'C16': dict(
+   text='Static decision of transparency and tee == to: in the seven generator pass-through iterators (tees, progress, '
+        'clock, cache) every path through the data loop yields exactly once and yields the row variable itself; wrap() '
+        'returns iter(inner); the ordered sink-effect skeleton (open mode, text-wrapper arguments, guarded header / '
+        'prologue / epilogue writes, per-row write with normalised payload, flush, detach in finally) of each of the four '
+        'tee iterators equals that of its to* writer; every public tee*/to* wrapper forwards all the parameters it accepts '
+        'and shares defaults with its sibling; cache() marks its memo complete under its room predicate. Same writes in '
+        'the same order with the same arguments give the same bytes for every table and argument combination.',
+   ref='DESIGN.md §4 C16',
+   note='bytes are not computed; write-mode newline None / \'\' / \'\\n\' are treated as equivalent (identical bytes on '
+        'POSIX; recorded as a platform note); the helper functions of the HTML writer are shared by both sides',
+   technique='sibling comparison of normalised sink-effect skeletons (AST normal form: yields erased, locals inlined, '
+             'HDR/ROW roles) + per-path yield counting + wrapper forwarding check'),
  'C18': dict(
    text='Static ownership analysis of temporary files: every creation site in the package (enumerated each run) has a '
         'finaliser-carrying owner from the next statement on, or is a guarded, __del__-finalised attribute; the finalisers '
